@@ -256,6 +256,48 @@ def decoders():
 
 GENERATOR_KINDS = {"produce0", "produce2", "fetch0", "fetch2", "offset", "offset_commit", "offset_fetch"}
 
+# --------------------------------------------------------------------------- the api_version argument of the two versioned decoders
+# decode_produce_response / decode_fetch_response take ANY integer (KafkaClient hands on the broker's
+# maximum, e.g. 11, while the request header carries the clamped 2).  A scenario of one of these kinds may
+# name the version handed to the REAL decoder and to the model (`"ver"`); without it the kind's own
+# version (0 / 2) is used.
+VERSIONED = {"produce0": "produce", "produce2": "produce", "fetch0": "fetch", "fetch2": "fetch"}
+
+
+def pick_version(rng, kind):
+    """-> None (the kind's own version) or an api_version: the other versions that select the same layout
+    (produce: every v >= 1, fetch: every v >= 2), the ones that select none (fetch 1, negative), and the
+    other layout (correspondence only)."""
+    if kind not in VERSIONED:
+        return None
+    r = rng.random()
+    if kind == "produce0":
+        return None if r < 0.7 else rng.choice([0, -1, -3, -32768, 1, 2, 7])
+    if kind == "produce2":
+        return None if r < 0.5 else rng.choice([2, 3, 3, 5, 8, 11, 32767, 1, 1, 0, -1])
+    if kind == "fetch0":
+        return None if r < 0.7 else rng.choice([0, 1, 1, -1, -7, 2, 11])
+    return None if r < 0.5 else rng.choice([2, 3, 3, 4, 11, 11, 32767, 1, 0, -2])
+
+
+def version_judged(kind, ver):
+    """Is the decoder's result for the grammar's encoding of a `kind` value, decoded under api_version
+    `ver`, judged by the monitor?  Yes when `ver` is a version whose reply layout is `kind`'s: 0 for the
+    v0 kinds, any version >= 2 for the v2 kinds (the request goes out as version 2 then).  Version 1 is
+    not implemented (C04_reply_v1_not_implemented) and negative versions do not exist: correspondence only."""
+    if ver is None or kind not in VERSIONED:
+        return True
+    return ver == 0 if kind.endswith("0") else ver >= 2
+
+
+def versioned_decoder(kind, ver):
+    """(extra model args, real decoder) for `kind` under api_version `ver`."""
+    from afkak.kafkacodec import KafkaCodec as K
+
+    if VERSIONED[kind] == "produce":
+        return [ver], (lambda d: K.decode_produce_response(d, ver))
+    return [ver], (lambda d: K.decode_fetch_response(d, ver))
+
 
 # --------------------------------------------------------------------------- canonical rendering of real results
 
